@@ -92,7 +92,7 @@ def shard(i, n, args):
         e = fails.setdefault(key, {"count": 0, "witness": wit})
         e["count"] += 1
 
-    for root in ctx.select_roots(py, i, n, kinds=("S", "REQ", "RESP", "NOTIF")):
+    for root in ctx.select_roots(py, i, n, kinds=("S", "REQ", "RESP", "NOTIF", "ERR")):
         if root.cls is None:
             continue
         nrand = 3 if tier == "quick" else 80
